@@ -63,6 +63,7 @@ class Report:
             if r.get("error"):
                 self.errors.append({"case": r["case"], "error": r["error"][-1500:]})
             self.paths += r.get("paths", 0)
+            self.slowest = sorted(getattr(self, "slowest", []) + [(round(r.get("wall_s", 0), 1), r["case"])], reverse=True)[:5]
             self.solver_s += r.get("solver_s", 0)
             for fl in r.get("flags", []):
                 self.flags.add(fl)
@@ -212,6 +213,7 @@ class Report:
             "rule": self.extra.get("rule", ""),
             "samples": self.samples[:12] or [{"note": "no sample recorded"}],
             "undecided_samples": self.undecided[:8],
+            "slowest_cases_s": getattr(self, "slowest", []),
             "flags": sorted(self.flags),
             "explanation": self.extra.get("explanation", ""),
             "exhaustive": False,
